@@ -28,6 +28,7 @@ type Snap struct {
 	NewLvl      int
 	NbOrig      int
 	CP          bool
+	Restarts    int
 }
 
 func (sn Snap) Sx() Sx {
@@ -36,7 +37,7 @@ func (sn Snap) Sx() Sx {
 		rs[i] = Ints(r)
 	}
 	return L(I(sn.Kind), I(sn.Lvl), Ints(sn.Trail), Ints(sn.Model), L(rs...), Ints(sn.Assumptions), Ints(sn.Conflict),
-		IntLists(sn.Constrs), B(sn.Done), I(sn.ResKind), Ints(sn.Learnt), I(sn.Unit), Ints(sn.Props), I(sn.NewLvl), I(sn.NbOrig), B(sn.CP))
+		IntLists(sn.Constrs), B(sn.Done), I(sn.ResKind), Ints(sn.Learnt), I(sn.Unit), Ints(sn.Props), I(sn.NewLvl), I(sn.NbOrig), B(sn.CP), I(sn.Restarts))
 }
 
 // SnapCase: a solve with tracing on.
